@@ -300,6 +300,11 @@ func (w *Worktree) getDualFS(wt billy.Filesystem) billy.Filesystem {
 	}
 
 	path := strings.TrimSpace(string(data[8:]))
+	if !filepath.IsAbs(path) {
+		// A relative gitdir is relative to the directory holding the
+		// .git file (git writes these with worktree.useRelativePaths).
+		path = filepath.Join(wt.Root(), path)
+	}
 	rel, err := filepath.Rel(commonDir.Root(), path)
 	if err != nil {
 		return nil
